@@ -976,6 +976,12 @@ func main() {
 			}
 		}
 	}
+	// text values that span lines (a literal is printed raw): still one token
+	for _, a := range []string{"a\nb", "\n", "a\n", "\nb", "a\n\nb", "a\tb", "a\r\nb"} {
+		if text, want, ok := printedText("text", a); ok {
+			pjobs = append(pjobs, pjob{"text", a, text, want})
+		}
+	}
 	for _, s := range scalarLiterals() {
 		pjobs = append(pjobs, pjob{"scalar", s, s, lexer.ItemLiteral})
 	}
